@@ -87,6 +87,7 @@ fn sweep_universal(ctx: &mut Ctx, rs: &RefSpec, input: &[u8], origin: &str, limi
             }
             let obs = parse_slice::<V>(input, &cfg);
             ctx.transitions += obs.items.len() as u64 + 1;
+            ctx.outcome(&(obs.items.len(), match &obs.term { Term::Err(e) => e.kind(), Term::Done => "done", _ => "other" }, allow));
             if let Err((k, det)) = universal(&obs, &cfg) {
                 ctx.violation(&k, &d, &format!("{} | observed {}", det, obs.short()));
             }
